@@ -52,6 +52,9 @@ func vfSelfSignedCert(name string) (cert *tls.Certificate, err error) {
 	return &tls.Certificate{Certificate: [][]byte{der}, PrivateKey: key}, nil
 }
 
+// vfC16Script is the beginning of a scripted history.
+var vfC16Script = []string{"dot", "reconfigure", "dot_reuse", "tcp", "tcp", "udp"}
+
 func TestVFC16History(t *testing.T) {
 	vfkit.Begin(t)
 	cert, err := vfSelfSignedCert(vfC16HistServerName)
@@ -76,12 +79,41 @@ func TestVFC16History(t *testing.T) {
 		}
 
 		var trace []string
+		// DoT connections their clients have left open (keep-alive), with the
+		// ClientID of their server name
+		type keptConn struct {
+			conn *dns.Conn
+			id   string
+			sni  string
+		}
+		var kept []keptConn
+		defer func() {
+			for _, k := range kept {
+				_ = k.conn.Close()
+			}
+		}()
 		idsBefore := map[string]bool{}
 		reconfigured := false
 		n := rapid.IntRange(3, 14).Draw(t, "n_ops")
+		scripted := rapid.IntRange(0, 2).Draw(t, "scripted_beginning") == 0
+		if scripted {
+			n = max(n, len(vfC16Script)+2)
+		}
 		for i := 0; i < n; i++ {
 			label := fmt.Sprintf("op%d", i)
-			kind := rapid.SampledFrom([]string{"dot", "dot", "dot", "udp", "udp", "tcp", "reconfigure"}).Draw(t, label+"_kind")
+			kinds := []string{"dot", "dot", "dot", "udp", "udp", "tcp", "tcp", "reconfigure"}
+			if len(kept) > 0 {
+				kinds = append(kinds, "dot_reuse", "dot_reuse")
+			}
+			kind := rapid.SampledFrom(kinds).Draw(t, label+"_kind")
+			if scripted && i < len(vfC16Script) {
+				// a third of the histories begin with a client that keeps its
+				// connection open across a reconfiguration
+				kind = vfC16Script[i]
+				if kind == "dot_reuse" && len(kept) == 0 {
+					kind = "dot"
+				}
+			}
 			if kind == "reconfigure" {
 				trace = append(trace, "reconfigure")
 				if rerr := w.srv.Reconfigure(nil); rerr != nil {
@@ -119,7 +151,30 @@ func TestVFC16History(t *testing.T) {
 					if xerr == nil {
 						resp, xerr = conn.ReadMsg()
 					}
-					_ = conn.Close()
+					if xerr == nil && len(kept) < 3 && (rapid.IntRange(0, 2).Draw(t, label+"_keep_open") == 0 || (scripted && i == 0)) {
+						kept = append(kept, keptConn{conn: conn, id: want, sni: sni})
+						trace[len(trace)-1] += " [kept open]"
+					} else {
+						_ = conn.Close()
+					}
+				}
+			case "dot_reuse":
+				// the next query on a connection opened earlier, perhaps before
+				// a reconfiguration
+				k := rapid.IntRange(0, len(kept)-1).Draw(t, label+"_conn")
+				want = kept[k].id
+				trace = append(trace, "dot again on the open connection("+kept[k].sni+")")
+				_ = kept[k].conn.SetDeadline(time.Now().Add(3 * time.Second))
+				xerr = kept[k].conn.WriteMsg(req)
+				if xerr == nil {
+					resp, xerr = kept[k].conn.ReadMsg()
+				}
+				if xerr != nil {
+					// the server has closed it meanwhile: its right
+					_ = kept[k].conn.Close()
+					kept = append(kept[:k], kept[k+1:]...)
+				} else if reconfigured {
+					vfC16.Class("history:open_connection_served_after_reconfiguration")
 				}
 			default:
 				trace = append(trace, kind)
